@@ -1,7 +1,7 @@
 SPECIFICATION Spec
 CONSTANTS
   Repaired = TRUE
-  ShapeSet = {"none", "one", "two", "dflt", "anon", "hidden", "hiddendflt", "twodflt"}
+  ShapeSet = {"none", "one", "two", "dflt", "anon", "hidden", "hiddendflt", "twodflt", "deep"}
   QuxSet = {"none", "anon"}
   FooArgSet = {"reqdfl", "long", "nodesc"}
   FooOptSet = {"flag", "three", "nodescdfl"}
